@@ -453,7 +453,13 @@ impl Index {
     let first_index_height = if index_sats || index_addresses {
       0
     } else if index_inscriptions {
-      settings.first_inscription_height()
+      if index_runes {
+        settings
+          .first_inscription_height()
+          .min(settings.first_rune_height())
+      } else {
+        settings.first_inscription_height()
+      }
     } else if index_runes {
       settings.first_rune_height()
     } else {
